@@ -131,6 +131,7 @@ class RunResult:
         self.sig_files = []
         self.distinct_sig_sum = 0
         self.nontrivial_sig_sum = 0
+        self.trace_sum = 0
         self.violation = None  # dict: kind: 'report'|'trap'|'hang', ...
         self.wall = 0.0
         self.worker_wall = 0.0
@@ -202,6 +203,7 @@ def run_workers(exe, prop, seed, total, chunk, want_hashes=False, timeout_per_ch
                 res.worker_wall += rep["wall_s"]
                 res.distinct_sig_sum += rep["distinct_signatures"]
                 res.nontrivial_sig_sum += rep["nontrivial_signatures"]
+                res.trace_sum += rep.get("distinct_traces", 0)
                 if len(res.samples) < 4:
                     res.samples.extend(rep["samples"][: 4 - len(res.samples)])
                 if len(res.notes) < 20:
